@@ -43,6 +43,7 @@ type c16Msg struct {
 	Chunks    []int
 	Gap       time.Duration // pause before this message
 	ChunkGap  time.Duration // pause between Writer chunks
+	Timeout   time.Duration // C05: the writer's own context deadline for this message (0 = none)
 }
 
 type c16Writer struct {
